@@ -413,7 +413,10 @@ def is_features_concatenate(n: fx.Node, parent: fx.GraphModule) -> bool:
     :return: `True` if `n` corresponds to a concat op.
     :rtype: bool
     """
-    dim = try_get_args(n, parent, 1, 'dim', 0)
+    # N.B., torch.cat accepts `axis` as an alias of `dim`
+    dim = try_get_args(n, parent, 1, 'dim', None)
+    if dim is None:
+        dim = n.kwargs.get('axis', 0)
     # the features axis can also be spelled with a negative index (e.g., -2 for a 3D tensor)
     if isinstance(dim, int) and dim < 0 and 'tensor_meta' in n.meta:
         dim += len(n.meta['tensor_meta'].shape)
